@@ -143,3 +143,37 @@ func TestSharedSameKey(t *testing.T) {
 		g0.Release()
 	}
 }
+
+// TestConcurrentCompute: several goroutines run the plain evaluator on one circuit at once and check every result.
+func TestConcurrentCompute(t *testing.T) {
+	d := circgen.Desc{In: []int{3, 3}, Out: []int{2, 2}, Gates: []circgen.G{{2, 0, 3}, {3, 1, 4}, {0, 6, 7}, {4, 8, 0}, {2, 2, 5}, {1, 9, 10}, {3, 11, 6}}}
+	c := d.Build()
+	var wg sync.WaitGroup
+	for tid := 0; tid < 6; tid++ {
+		wg.Add(1)
+		go func(tid int) {
+			defer wg.Done()
+			for it := 0; it < 200; it++ {
+				x := (it*7 + tid*13) % 64
+				in := make([]bool, 6)
+				for i := range in {
+					in[i] = x>>i&1 == 1
+				}
+				ref, _ := bitsim.Eval(c, in)
+				want := bitsim.Outputs(c, ref)
+				got, err := c.Compute([]*big.Int{big.NewInt(int64(x & 7)), big.NewInt(int64(x >> 3))})
+				if err != nil {
+					t.Errorf("compute: %v", err)
+					return
+				}
+				for i := range want {
+					if got[i].Cmp(want[i]) != 0 {
+						t.Errorf("goroutine %d: Compute(%d) output %d = %v, want %v", tid, x, i, got[i], want[i])
+						return
+					}
+				}
+			}
+		}(tid)
+	}
+	wg.Wait()
+}
